@@ -75,6 +75,9 @@ def predicate_problems(case, obs):
         p.append('the input sequence was modified')
     if obs.get('identified') != r:
         p.append(f'identified objects give {obs.get("identified")}, TermIds give {r}')
+    for kind in ('as_array', 'as_deque'):
+        if kind in obs and obs[kind] != r:
+            p.append(f'identified objects / another kind of sequence: the same ids {kind.replace("_", " ")} give {obs[kind]}, as a list {r}')
     if obs.get('again') != r:
         p.append(f'second call gives {obs.get("again")}, first call gave {r}')
     for seq, o in zip(case.get('followups', []), obs.get('followups', [])):
